@@ -200,7 +200,7 @@ PROPS = {
                         "answered with a TurnUndead only by an instance that renewed its identity in that step. The composition is the prose argument of DESIGN §4 C18."),
         "bounds": BOUNDS_E1, "outside": "the composition over several instances; " + OUT_E1, "assumptions": [STUBS],
         "harnesses": [
-            H("d_turn_undead_never", cost=200, timeout_q=900), H("d_ping", cost=80), H("d_ack", cost=70), H("d_gossip", cost=75), H("d_pingreq", cost=80),
+            H("d_turn_undead_never", cost=200, timeout_q=900), H("d_turn_undead_losing", cost=200, timeout_q=900), H("d_ping", cost=80), H("d_ack", cost=70), H("d_gossip", cost=75), H("d_pingreq", cost=80),
             H("d_turn_undead_next", tier=T, cost=600, timeout_t=3000), H("d_turn_undead", tier=T, cost=900, timeout_t=3600, mem_gb=40), H("d_announce", tier=T, cost=500, timeout_t=3000), H("d_announce_32", tier=T, cost=900, timeout_t=3600, mem_gb=40),
             H("d_indirect_ping", tier=T), H("d_indirect_ack", tier=T), H("d_fwd_ack", tier=T, cost=105), H("d_feed", tier=T), H("d_broadcast", tier=T), H("d_gossip_upd", tier=T, cost=900, timeout_t=3600, mem_gb=44),
             H("d_ping_upd", tier=T, cost=900, timeout_t=3600, mem_gb=44), H("c06_fuzz_gossip_7", tier=T, cost=120), H("d_turn_undead_k2", tier=T, cost=900, timeout_t=3000),
